@@ -1,7 +1,8 @@
 (* C04x -- the hand-off half of C04 / C02 over the COMBINED model Model/MuXferModel.v (Model/MuModel.v = mu.c site by
    site, plus the part of cv.c that works on the mutex: nsync_cv_wait releasing / parking / re-acquiring, nsync_cv_signal /
    broadcast, wake_waiters with the TRANSFER of cv waiters to the mutex queue and its release of the mutex spinlock with
-   clear_on_release; nsync_wait_n callers on the same cv, with or without the mutex, whose records wake_waiters never
+   clear_on_release; GENERIC-interface waiters (nsync_cv_wait_with_deadline_generic with the caller's own lock routines: cv_mu
+   == NULL), which wake_waiters wakes directly since the repair of finding F16; nsync_wait_n callers on the same cv, with or without the mutex, whose records wake_waiters never
    transfers -- the `p_w == NULL` branch -- and which make all_readers false).
    "nsync_cv_signal wakes at least one ... a thread that started waiting before a wake-up is issued is covered by it" and
    "no thread stays asleep on a mutex that is free with nobody left who is responsible for waking it", for waiters that
@@ -16,7 +17,7 @@
 From NsyncBase Require Import CSem.
 From NsyncGen Require Import Consts Sites.
 From NsyncModel Require Import MuModel MuSpec MuXferModel.
-From NsyncProof Require Import MuProof2 MuXferProof MuXferProof2 MuXferProof3 MuXferProof4 MuXferProof6 MuXferProof7 MuXferProof8.
+From NsyncProof Require Import MuProof2 MuXferProof MuXferProof2 MuXferProof3 MuXferProof4 MuXferProof6 MuXferProof7 MuXferProof8 MuXferProof10 MuXferProof11.
 From Coq Require Import List ZArith.
 Import ListNotations.
 Local Open Scope Z_scope.
@@ -82,6 +83,80 @@ Theorem C04x_last_holder_must_scan : forall progs sched,
   nsync_mu_unlock_slow_cas1_guard (word (mw xw)) = false /\ nsync_mu_unlock_slow_cas2_guard (word (mw xw)) = true.
 Proof. exact x_last_holder_must_scan. Qed.
 
+(* ---------- balanced programs ---------- *)
+(* The three quiescent theorems above have a holder in their conclusion: they bite only when a thread ends (or sleeps) holding
+   the mutex.  [balanced progs]: every program, read sequentially, releases what it acquires ([bal]: lock only when holding
+   nothing, unlock only when holding, nsync_cv_wait / nsync_wait_n (mu, ..) entered -- hence left -- holding in the declared
+   mode, nsync_wait_n (NULL, ..) called holding nothing, no trylock).  For such programs a finished thread holds nothing and no
+   sleeping thread holds anything, so: in a quiescent reachable world NOBODY sleeps on the mutex -- neither inside
+   nsync_mu_lock_slow_ nor as a cv waiter that wake_waiters has transferred to the mutex queue.  (Threads asleep on the CV -- not
+   transferred -- may remain: nobody signalled them.) *)
+Theorem C04x_balanced_no_mu_sleeper : forall progs sched,
+  Z.of_nat (length progs) < 2 ^ 24 - 1 -> balanced progs ->
+  let xw := xrun (xinit progs) sched in
+  x_quiescent xw -> forall p, ~ x_mu_sleeper xw p.
+Proof. exact balanced_no_mu_sleeper. Qed.
+
+(* non-vacuity: the balanced three-thread program of C04x_example_all_states: in mid-run thread 1 IS a transferred waiter asleep on
+   the mutex queue (the world is not quiescent: the others can move); the final world is quiescent *)
+Example C04x_balanced_example :
+  balanced bal_progs /\
+  (let x1 := xrun (xinit bal_progs) bal_s1 in x_mu_sleeper x1 1%nat /\ ~ x_quiescent x1) /\
+  (let x2 := xrun (xrun (xinit bal_progs) bal_s1) bal_s2 in x_quiescent x2 /\ forall p, ~ x_mu_sleeper x2 p).
+Proof. exact balanced_example. Qed.
+
+(* ... and a quiescent world of a balanced program WITH sleepers: a reader in nsync_cv_wait and an nsync_wait_n caller, both on
+   the cv queue, nobody to signal them -- asleep, but not on the mutex *)
+Example C04x_balanced_example_cv_sleepers :
+  let xw := xrun (xinit lone_progs) lone_sched in
+  balanced lone_progs /\ x_quiescent xw /\ x_asleep xw 0%nat /\ x_asleep xw 1%nat /\ cvq xw = [0; 1]%nat /\
+  forall p, ~ x_mu_sleeper xw p.
+Proof. exact balanced_example_cv_sleepers. Qed.
+
+(* ---------- the regression behind finding F16: the transfer test before commit f28c99f ---------- *)
+(* [xrun_o16]: the same model over [xstep_thr_o16] (Proof/MuXferProof11.v), which is xstep_thr except that wake_waiters' transfer
+   loop spares only `p_w == NULL` records (so a generic-interface waiter behind a native first waiter is MOVED to the mutex
+   queue) and that a generic waiter, moved or not, re-acquires through its caller's lock routine.  It coincides with xstep_thr
+   at every other step, and at XwLoop for non-generic waiters: *)
+Theorem C04x_f16_old_step_elsewhere : forall x t c,
+  (forall k old, x_pc (xget (xbegin x t) t) <> XvCas1 k old) -> (forall l, x_pc (xget (xbegin x t) t) <> XwLoop l) ->
+  xstep_thr_o16 x t c = xstep_thr x t c.
+Proof. exact o16_step_elsewhere. Qed.
+
+(* All the theorems above quantify over programs WITH generic waiters (XWaitG) and hold for the repaired model.  They are FALSE of
+   the old transfer test, for a balanced program: a quiescent world with a thread asleep on the queue of a mutex nobody holds *)
+Theorem C04x_f16_old_code_refuted : exists progs sched,
+  Z.of_nat (length progs) < 2 ^ 24 - 1 /\ balanced progs /\
+  let xw := xrun_o16 (xinit progs) sched in
+  x_quiescent xw /\ (exists p, x_mu_sleeper xw p) /\ ~ x_holder xw.
+Proof. exact f16_old_code_refuted. Qed.
+
+(* the witness: a native waiter first, a generic waiter behind it, ONE broadcast under the write lock: the old loop moves both *)
+Theorem C04x_f16_old_moves_generic :
+  let xw := xrun_o16 (xinit f16_progs) (firstn 20 f16_sched) in
+  queue (mw xw) = [0; 1]%nat /\ xferred xw 1%nat = true /\ xg_rec (x_pc (xget xw 1%nat)) = true.
+Proof. exact f16_old_moves_generic. Qed.
+
+(* ... the generic waiter is later woken with MU_DESIG_WAKER set, re-acquires through nsync_mu_lock and never clears the bit; a
+   later locker (thread 3) queues behind a later holder (thread 4), whose unlock wakes nobody: quiescent, everybody else done,
+   mutex free, MU_DESIG_WAKER and MU_WAITING set, thread 3 asleep on the queue with its flag set *)
+Theorem C04x_f16_old_stranded :
+  let xw := xrun_o16 (xinit f16_progs) f16_sched in
+  x_quiescent xw /\ x_mu_sleeper xw 3%nat /\ (forall t m, held (get (mw xw) t) <> Some m) /\
+  queue (mw xw) = [3%nat] /\ waiting (mw xw) 3%nat = true /\
+  has (word (mw xw)) MU_DESIG_WAKER = true /\ has (word (mw xw)) MU_WAITING = true /\ has (word (mw xw)) MU_SPINLOCK = false /\
+  (forall t, t <> 3%nat -> (t < 5)%nat -> x_done xw t).
+Proof. exact f16_old_stranded. Qed.
+
+(* the SAME schedule under the repaired step: the generic waiter is woken directly and never marked; where the old run ends
+   stranded the repaired run has a live waker (thread 2 about to post the designated waker 0); run on, everybody finishes *)
+Theorem C04x_f16_schedule_repaired :
+  let x1 := xrun (xinit f16_progs) f16_sched in
+  let x2 := xrun x1 (map go (repeat 2 5 ++ repeat 0 30 ++ repeat 3 20 ++ repeat 1 10 ++ repeat 4 5)%nat) in
+  (xferred x1 1%nat = false /\ (exists m u, t_pc (get (mw x1) 2%nat) = UsWakeV m 0%nat u) /\ ~ x_quiescent x1) /\
+  (forall t, (t < 5)%nat -> x_done x2 t) /\ word (mw x2) = 0 /\ queue (mw x2) = [].
+Proof. exact f16_schedule_repaired. Qed.
+
 (* ---------- the result of the wait (C05: a consumed wake-up is reported as a wake-up) ---------- *)
 (* [w_out] = ghost "outcome != 0", set as in cv.c only by the branch of the confirmation section that finds the waiter
    still on the cv queue; [wl3 pc = Some l]: the thread is inside a wait (enqueued, not yet returned) with locals l. *)
@@ -120,17 +195,29 @@ Theorem C05x_zero_until_return : forall sched xw t, x_zero xw t ->
 Proof. exact xrun_zero. Qed.
 
 (* ---------- nsync_wait_n records on the cv ---------- *)
-(* [nrec xw p]: the record thread p has on the cv is the record of an nsync_wait_n call (flags == 0: wake_waiters' `p_w ==
+(* [xn_rec (pc of p)]: the record thread p has on the cv is the record of an nsync_wait_n call (flags == 0: wake_waiters' `p_w ==
    NULL`); such a record is never transferred: its thread is neither on the mutex queue nor on the wake list of a thread
    inside nsync_mu_unlock_slow_, and it is not a native cv waiter -- so the two waiting flags of a thread (w->nw.waiting of its
    waiter struct, nw[0].waiting of its nsync_wait_n call), which the model keeps in ONE cell, are never live together. *)
 Theorem C04x_record_kinds : forall progs sched p,
   Z.of_nat (length progs) < 2 ^ 24 - 1 ->
   let xw := xrun (xinit progs) sched in
-  nrec xw p = true ->
+  xn_rec (x_pc (xget xw p)) = true ->
   ~ In p (queue (mw xw)) /\ (forall u, ~ In p (wake_of (t_pc (get (mw xw) u)))) /\ wphase (x_pc (xget xw p)) = false /\
   xaf xw p = false.
 Proof. exact record_kinds. Qed.
+
+(* GENERIC-interface waiters ([XWaitG m]: nsync_cv_wait_with_deadline_generic with the caller's own lock routines; the waiter
+   struct has cv_mu == NULL and l_type == NULL; [xg_rec (pc of p)]: p's record on the cv is such a waiter).  Since the repair of
+   finding F16 (wake_waiters transfers only waiters whose cv_mu is pmu) such a waiter is never transferred: not marked, not on
+   the mutex queue, not on a releaser's wake list -- it is woken directly and re-acquires through its caller's lock routine.
+   [nrec] = xn_rec or xg_rec: the records wake_waiters does not transfer and nsync_cv_signal counts as non-readers. *)
+Theorem C04x_generic_never_transferred : forall progs sched p,
+  Z.of_nat (length progs) < 2 ^ 24 - 1 ->
+  let xw := xrun (xinit progs) sched in
+  xg_rec (x_pc (xget xw p)) = true ->
+  xferred xw p = false /\ ~ In p (queue (mw xw)) /\ (forall u, ~ In p (wake_of (t_pc (get (mw xw) u)))).
+Proof. exact generic_never_transferred. Qed.
 
 (* the cv side of the places invariant: every member of the cv queue or of a to_wake_list has its waiting flag set, is
    there exactly once, and is a native waiter parked in nsync_cv_wait that has not been transferred, or an nsync_wait_n record *)
@@ -216,9 +303,12 @@ Proof. exact example_timeout_after_transfer. Qed.
 Print Assumptions C04x_handoff_all_states. Print Assumptions C04x_cleared_flag_has_post.
 Print Assumptions C04x_no_lost_transfer_full. Print Assumptions C04x_holder_is_responsible.
 Print Assumptions C04x_last_holder_must_scan.
+Print Assumptions C04x_f16_old_step_elsewhere. Print Assumptions C04x_f16_old_code_refuted. Print Assumptions C04x_f16_old_moves_generic.
+Print Assumptions C04x_f16_old_stranded. Print Assumptions C04x_f16_schedule_repaired.
+Print Assumptions C04x_balanced_no_mu_sleeper. Print Assumptions C04x_balanced_example. Print Assumptions C04x_balanced_example_cv_sleepers.
 Print Assumptions C05x_transferred_returns_zero. Print Assumptions C05x_picked_zero. Print Assumptions C05x_transferred_zero.
 Print Assumptions C05x_zero_until_return.
-Print Assumptions C04x_record_kinds. Print Assumptions C04x_cv_members. Print Assumptions C04x_wake_head_native.
+Print Assumptions C04x_record_kinds. Print Assumptions C04x_generic_never_transferred. Print Assumptions C04x_cv_members. Print Assumptions C04x_wake_head_native.
 Print Assumptions C04x_example_nobody_transferred. Print Assumptions C04x_example_waitn_mutex.
 Print Assumptions C04x_example_all_states. Print Assumptions C04x_example_quiescent.
 Print Assumptions C05x_example_timeout_after_transfer.
